@@ -3,3 +3,6 @@ import Proofs.C03
 import Proofs.C04
 import Proofs.C05
 import Proofs.C11
+import Proofs.C15
+import Proofs.C16
+import Proofs.C17
